@@ -1,0 +1,248 @@
+//go:build verif
+
+package simhook
+
+import (
+	"cmp"
+	"slices"
+	"sync"
+	"sync/atomic"
+)
+
+// Scheduler is implemented by the simulator.
+type Scheduler interface {
+	// Park blocks the calling goroutine until the simulator releases it.
+	Park(label string)
+	// Choose parks the calling goroutine and returns a simulator-chosen
+	// value in [0,n).
+	Choose(label string, n int) int
+}
+
+type holder struct{ s Scheduler }
+
+var cur atomic.Pointer[holder]
+
+// Install installs the scheduler. nil removes it.
+func Install(s Scheduler) {
+	if s == nil {
+		cur.Store(nil)
+		return
+	}
+	cur.Store(&holder{s})
+}
+
+func sched() Scheduler {
+	if h := cur.Load(); h != nil {
+		return h.s
+	}
+	return nil
+}
+
+// Yield marks a point at which a simulator may switch to another goroutine.
+func Yield(label string) {
+	if s := sched(); s != nil {
+		s.Park(label)
+	}
+}
+
+// Mutex is a drop-in replacement for sync.Mutex which blocks on a channel
+// (so that a blocked goroutine is durably blocked for testing/synctest)
+// and yields to the scheduler before every acquisition.
+type Mutex struct {
+	ch atomic.Pointer[chan struct{}]
+}
+
+func (m *Mutex) c() chan struct{} {
+	if p := m.ch.Load(); p != nil {
+		return *p
+	}
+	c := make(chan struct{}, 1)
+	if m.ch.CompareAndSwap(nil, &c) {
+		return c
+	}
+	return *m.ch.Load()
+}
+
+func (m *Mutex) Lock() {
+	Yield("mu.Lock")
+	m.c() <- struct{}{}
+}
+
+func (m *Mutex) TryLock() bool {
+	select {
+	case m.c() <- struct{}{}:
+		return true
+	default:
+		return false
+	}
+}
+
+func (m *Mutex) Unlock() {
+	select {
+	case <-m.c():
+	default:
+		panic("simhook: unlock of unlocked mutex")
+	}
+}
+
+type rwWaiter struct {
+	write bool
+	ch    chan struct{}
+}
+
+// RWMutex is a drop-in replacement for sync.RWMutex with the same blocking
+// semantics (a pending writer blocks new readers).
+type RWMutex struct {
+	mu      sync.Mutex
+	readers int
+	writer  bool
+	waiters []*rwWaiter
+}
+
+func (m *RWMutex) RLock() {
+	Yield("rw.RLock")
+	m.mu.Lock()
+	if !m.writer && len(m.waiters) == 0 {
+		m.readers++
+		m.mu.Unlock()
+		return
+	}
+	w := &rwWaiter{false, make(chan struct{})}
+	m.waiters = append(m.waiters, w)
+	m.mu.Unlock()
+	<-w.ch
+}
+
+func (m *RWMutex) RUnlock() {
+	m.mu.Lock()
+	m.readers--
+	if m.readers < 0 {
+		m.mu.Unlock()
+		panic("simhook: RUnlock of unlocked RWMutex")
+	}
+	m.wake()
+	m.mu.Unlock()
+}
+
+func (m *RWMutex) Lock() {
+	Yield("rw.Lock")
+	m.mu.Lock()
+	if !m.writer && m.readers == 0 && len(m.waiters) == 0 {
+		m.writer = true
+		m.mu.Unlock()
+		return
+	}
+	w := &rwWaiter{true, make(chan struct{})}
+	m.waiters = append(m.waiters, w)
+	m.mu.Unlock()
+	<-w.ch
+}
+
+func (m *RWMutex) Unlock() {
+	m.mu.Lock()
+	if !m.writer {
+		m.mu.Unlock()
+		panic("simhook: Unlock of unlocked RWMutex")
+	}
+	m.writer = false
+	m.wake()
+	m.mu.Unlock()
+}
+
+// RLocker returns a Locker interface that implements Lock and Unlock via
+// RLock and RUnlock.
+func (m *RWMutex) RLocker() sync.Locker { return (*rlocker)(m) }
+
+type rlocker RWMutex
+
+func (r *rlocker) Lock()   { (*RWMutex)(r).RLock() }
+func (r *rlocker) Unlock() { (*RWMutex)(r).RUnlock() }
+
+func (m *RWMutex) wake() {
+	for len(m.waiters) > 0 {
+		w := m.waiters[0]
+		if w.write {
+			if m.writer || m.readers > 0 {
+				return
+			}
+			m.writer = true
+			m.waiters = m.waiters[1:]
+			close(w.ch)
+			return
+		}
+		if m.writer {
+			return
+		}
+		m.readers++
+		m.waiters = m.waiters[1:]
+		close(w.ch)
+	}
+}
+
+// Once is a drop-in replacement for sync.Once whose waiters block durably.
+type Once struct {
+	mu   Mutex
+	done atomic.Bool
+}
+
+func (o *Once) Do(f func()) {
+	if o.done.Load() {
+		return
+	}
+	o.mu.Lock()
+	defer o.mu.Unlock()
+	if !o.done.Load() {
+		defer o.done.Store(true)
+		f()
+	}
+}
+
+// GateChoice is the result of Gate.
+type GateChoice struct {
+	chosen int
+	ready  []bool
+}
+
+// Gate lets the scheduler decide which of several ready select cases is
+// taken. ready[i] reports whether case i could proceed right now. If fewer
+// than two cases are ready, or no scheduler is installed, nothing is gated.
+func Gate(label string, ready ...bool) GateChoice {
+	s := sched()
+	if s == nil {
+		return GateChoice{chosen: -1}
+	}
+	var idx []int
+	for i, r := range ready {
+		if r {
+			idx = append(idx, i)
+		}
+	}
+	if len(idx) < 2 {
+		return GateChoice{chosen: -1}
+	}
+	return GateChoice{chosen: idx[s.Choose(label, len(idx))], ready: ready}
+}
+
+// Pick returns ch unless case i was ready at the gate and another case was
+// chosen, in which case it returns nil (which blocks forever in a select).
+func Pick[T any](g GateChoice, i int, ch <-chan T) <-chan T {
+	if g.chosen >= 0 && g.chosen != i && i < len(g.ready) && g.ready[i] {
+		return nil
+	}
+	return ch
+}
+
+// Order returns keys in an order chosen by the scheduler (sorted if there is
+// none). It is used to take control of map iteration order.
+func Order[K cmp.Ordered](label string, keys []K) []K {
+	slices.Sort(keys)
+	s := sched()
+	if s == nil || len(keys) < 2 {
+		return keys
+	}
+	for i := 0; i < len(keys)-1; i++ {
+		j := i + s.Choose(label, len(keys)-i)
+		keys[i], keys[j] = keys[j], keys[i]
+	}
+	return keys
+}
